@@ -109,7 +109,7 @@ pub fn run(ctx: &mut Ctx) {
         adds the complete small enumeration. Non-trivial: two operations of different threads overlap."
         .into();
     let ctx = &*ctx;
-    let n = ctx.n(30000, 400000);
+    let n = ctx.n(30000, 1200000);
     ctx.cases("random/Register", n, 0, |c| random_case::<Register<char>>(c, 7));
     ctx.cases("random/WORegister", n, 0, |c| random_case::<WORegister<char>>(c, 7));
     ctx.cases("random/Vec", n, 0, |c| random_case::<Vec<char>>(c, 7));
